@@ -42,7 +42,49 @@ def sortData (d : Data) : Data :=
     let (lo, hi) := acc.span (fun x => x.1 < e.1)
     lo ++ [e] ++ hi) []
 
+/-- Large-prefix cases (`input.big`): the store's history is `first = last = i` for `i = 0 … commits`, all
+other keys constant, so a delivered snapshot is a content the store had iff it has all keys, the other
+keys untouched and `first = last = i` for a committed `i`. A snapshot assembled from reads at two
+different revisions shows up as `first ≠ last` (sig `mixed-revision-snapshot`). -/
+def judgeBig (big obs : Json) : Except String Verdict := do
+  match obsPanic obs with
+  | some m => pure { agree := false, spec := false, sig := "panic-or-hang", note := m }
+  | none =>
+  if optStr obs "setupErr" != "" then
+    return { agree := true, spec := true, tags := ["big-prefix", "big:setup-failed"], nontrivial := false }
+  let keys := (optInt obs "keys").toNat
+  let commits := (optInt obs "commits").toNat
+  let writeErrs := (optInt obs "writeErrs").toNat
+  let snapsJ ← getArr obs "snaps"
+  let snaps ← snapsJ.toList.mapM fun j => do
+    let c := (optInt j "count").toNat
+    let f ← getStr j "first"
+    let l ← getStr j "last"
+    pure (c, f, l, optBool j "others")
+  let mixed := snaps.any fun (c, f, l, o) => f != l || c != keys || !o
+  let vals := snaps.map fun (_, f, _, _) => f.toNat?
+  let inRange := vals.all fun v => match v with | some n => n ≤ commits + writeErrs | none => false
+  let nums := vals.filterMap id
+  let ordered := (nums.zip (nums.drop 1)).all fun (a, b) => a < b
+  let converged := writeErrs != 0 || (optBool obs "converged" && nums.getLast? == some commits)
+  let real := !mixed && inRange && ordered
+  let spec := real && converged
+  let sig := if spec then "" else
+    if mixed then "mixed-revision-snapshot"
+    else if !real then "phantom-or-reordered-snapshot"
+    else "not-converged"
+  let tags := ["big-prefix", "mode:" ++ optStr big "mode"]
+    ++ (if writeErrs != 0 then ["write-errors-inconclusive"] else [])
+    ++ (if snaps.length ≥ 10 then ["snaps>=10"] else if snaps.isEmpty then ["snaps=0"] else ["snaps<10"])
+    ++ (if commits ≥ 30 then ["big:commits>=30"] else ["big:commits<30"])
+  pure { agree := real, spec := spec, tags := tags, nontrivial := commits ≥ 10 && snaps.length ≥ 3, sig := sig,
+         expected := Json.mkObj [("keys", Json.num keys), ("commits", Json.num commits)],
+         note := if mixed then "a snapshot is not a content the store ever had (first ≠ last, or keys missing / changed)" else "" }
+
 def judge : Judge := liftJudge fun input obs => do
+  match input.getObjVal? "big" with
+  | .ok big => if big != Json.null then return ← judgeBig big obs
+  | .error _ => pure ()
   let mode ← getStr input "mode"
   let key ← getStr input "key"
   let init ← parseWrites input "init"
